@@ -21,7 +21,9 @@ evaluate() returns ("i", int) | ("f", float, abs_err) | ("s", bytes) or raises
   Undefined  - the manual makes the operation an error (division by zero, domain, ill-typed)
   Excluded   - the manual does not settle the value (stated exclusions); the case is not judged
 """
-import math, struct
+import math, re, struct
+
+_EXPLIKE = re.compile(r"(^|[^0-9A-Za-z_.$@%'])[0-9][0-9.]*[eE]$")
 
 M64 = (1 << 64) - 1
 MAXI = (1 << 63) - 1
@@ -713,7 +715,7 @@ def spellings(v, st, flags):
 
 # ------------------------------------------------------------------------- rendering
 
-RAW_OK = set(range(32, 127)) - set(b"\"'\\{};,")
+RAW_OK = set(range(32, 127)) - set(b"\"'\\{}")
 NAMED = {8: "b", 7: "a", 27: "e", 9: "t", 10: "n", 13: "r", 92: "\\", 39: "h", 34: "i"}
 
 
@@ -809,6 +811,9 @@ class Renderer:
             if rr == "neg" or rr >= rank:
                 rt = "(" + rt + ")"
             o = (op, " " + op + " ", op + " ", " " + op)[sp & 3]
+            if op in "+-" and lt[-1:] in "eE" and rt[:1].isdigit() and o[0] != " " and _EXPLIKE.search(lt):
+                # 3E+0 under RADIX 16 or with the 0hex notation: hex constant plus term, or float constant
+                raise Excluded("digits E sign digits: integer constant plus term or float constant")
             return lt + o + rt, rank
         if k == "c":
             name = node[1]
